@@ -82,8 +82,10 @@ def item_xml(it, i, rnd, late_anchor):
                 f'<line x1="{q(x1)}" y1="{q(y1)}" x2="{q(x2)}" y2="{q(y1)}" clip-path="url(#cq{i})"/>'), ""
     if k == "reuse":
         return f'<specs><rect id="rt{i}" x="{q(x1)}" y="{q(y1)}" width="{q(w)}" height="{q(h)}"/></specs><reuse href="#rt{i}" x="{q(x1 + 80)}" y="{q(y1 + 40)}"/>', ""
-    if k in ("usex", "usey", "usexy"):
+    if k in ("usex", "usey", "usexy", "usetrans"):
         off = ('x="20"' if "x" in k[3:] else "") + (' y="-10"' if "y" in k[3:] else "")
+        if k == "usetrans":
+            off = 'transform="translate(20 -10)"'
         # the referenced shape: a rect, or an ellipse / line covering the same box
         tgt = rnd.choice([f'<rect id="ut{i}" x="{q(x1)}" y="{q(y1)}" width="{q(w)}" height="{q(h)}"/>',
                           f'<ellipse id="ut{i}" cx="{q(x1 + w / 2)}" cy="{q(y1 + h / 2)}" rx="{q(w / 2)}" ry="{q(h / 2)}"/>',
